@@ -452,6 +452,35 @@ impl Clone for TransitionCycle {
             && usage_exact(r->Ok_0.0.depot_usage@, &self.network, r->Ok_0.0.vehicles@, r->Ok_0.0.tours@), // @obl C09.spawn_vehicle.depot_usage_exact
         // C15 / C10 / C09: rotation cycles and maintenance violation
         r is Ok ==> self.transitions_follow(vehicle_type_idx, &r->Ok_0.0), // @obl C10.spawn_vehicle.transitions_follow_new_tours
+        // ---- CLOSURE (C10 "after any sequence of schedule modifications", C09 / C11 "for every reachable schedule"): the result
+        // satisfies the schedule-invariant bundle sv_ok() of the precondition AGAIN, conjunct by conjunct (spcl_lemma_closure,
+        // env/spawn_vehicle_shim.vs).  Instance validity: the network is the same
+        r is Ok ==> r->Ok_0.0.network.wf() && depot_lists_ok(&r->Ok_0.0.network), // @obl C10.spawn_vehicle.result_satisfies_the_schedule_invariants_again
+        // ids / listings: vehicles under their own `Vehicle` id below the counter, with a tour; dummies under `Dummy` ids; id lists sorted
+        r is Ok ==> r->Ok_0.0.sv_ids_ok(), // @obl C10.spawn_vehicle.result_satisfies_the_schedule_invariants_again
+        // formations: every activity has an entry; the instance clause (A-types); C09: the cached unserved-passengers pair covers
+        // every duplicate-free list of nodes w.r.t. the NEW table (re-established from the clause itself and the exact delta)
+        r is Ok ==> r->Ok_0.0.spcl_forms_cover_activities() && r->Ok_0.0.spcl_trips_typed() && r->Ok_0.0.spcl_unserved_covers(), // @obl C10.spawn_vehicle.result_satisfies_the_schedule_invariants_again
+        // formations, MAGNITUDE clauses (at most 2^17 vehicles per formation; the u32 capacity / seat sums fit with one more vehicle):
+        // NOT invariants of the operation (every formation along the new tour grows by one vehicle, and sv_ok does not relate the
+        // length of a formation to the number of vehicles); they hold again under the weakest hypothesis on the RESULT: the clause
+        // itself for the formations that grew (the activities of the new tour) -- everywhere else it is inherited
+        r is Ok && r->Ok_0.0.spcl_grown_len_small(r->Ok_0.0.tours@[r->Ok_0.1].nodes@) ==> r->Ok_0.0.spcl_forms_len_small(), // @obl C10.spawn_vehicle.result_satisfies_the_schedule_invariants_again
+        r is Ok && r->Ok_0.0.spcl_grown_sums_fit(r->Ok_0.0.tours@[r->Ok_0.1].nodes@) ==> r->Ok_0.0.spcl_forms_sums_fit(), // @obl C10.spawn_vehicle.result_satisfies_the_schedule_invariants_again
+        r is Ok && r->Ok_0.0.spcl_grown_len_small(r->Ok_0.0.tours@[r->Ok_0.1].nodes@) && r->Ok_0.0.spcl_grown_sums_fit(r->Ok_0.0.tours@[r->Ok_0.1].nodes@)
+            ==> r->Ok_0.0.sv_formations_ok(), // @obl C10.spawn_vehicle.result_satisfies_the_schedule_invariants_again
+        // rotation cycles: every clause of transitions_ok, INCLUDING its magnitude clause (fewer than 2^17 vehicles in the cycles:
+        // they hold exactly the vehicles, and ids are 16 bit)
+        r is Ok ==> r->Ok_0.0.transitions_ok(), // @obl C10.spawn_vehicle.result_satisfies_the_schedule_invariants_again
+        // depot usage: exact w.r.t. the result's own network
+        r is Ok ==> usage_exact(r->Ok_0.0.depot_usage@, &r->Ok_0.0.network, r->Ok_0.0.vehicles@, r->Ok_0.0.tours@), // @obl C10.spawn_vehicle.result_satisfies_the_schedule_invariants_again
+        // the bundle.  `costs <= 2^61` is a magnitude clause, too, and not an invariant (costs grow by the costs of the new tour):
+        // it is a hypothesis on the result
+        r is Ok && r->Ok_0.0.spcl_grown_len_small(r->Ok_0.0.tours@[r->Ok_0.1].nodes@) && r->Ok_0.0.spcl_grown_sums_fit(r->Ok_0.0.tours@[r->Ok_0.1].nodes@)
+            && r->Ok_0.0.costs <= sched_cost_bound() ==> r->Ok_0.0.sv_ok(), // @obl C10.spawn_vehicle.result_satisfies_the_schedule_invariants_again
+        // the preconditions outside sv_ok that are not about the path: a known vehicle type stays known; A-index for the start depots
+        r is Ok ==> forall|t: VehicleTypeIdx| self.type_known(t) ==> #[trigger] r->Ok_0.0.type_known(t), // @obl C10.spawn_vehicle.result_satisfies_the_schedule_invariants_again
+        r is Ok ==> r->Ok_0.0.network.start_depots_ok(), // @obl C10.spawn_vehicle.result_satisfies_the_schedule_invariants_again
 //@end
 //@item solution/src/schedule.rs Schedule::from_tours
 //@retname r
